@@ -5,7 +5,7 @@
 
 Every MirImpl call is logged (fn, args, result) so a path's model can be replayed natively and the
 observables compared (translation validation)."""
-import json, subprocess, os, select, time
+import json, os, subprocess, os, select, time
 import z3
 from engine import *
 import models
@@ -36,6 +36,9 @@ class MirImpl:
         return res
 
     def _call(self, name, args):
+        # non-termination guard: the step budget of a path grows with the size of the texts handed to the call
+        size = sum(len(a.buf) for a in args if isinstance(a, (StrRef, StringObj))) + sum(len(a.cell[0].buf) for a in args if isinstance(a, RcObj) and hasattr(a.cell[0], 'buf'))
+        self.I.step_limit = max(getattr(self.I, 'step_limit', 0), 3_000_000, 6000 * size)
         try:
             return self.I.call(name, args)
         except RustPanic as e:
@@ -238,11 +241,20 @@ class NativeImpl:
         self.binary = binary
         self.timeout = timeout
         self.p = None
+        self.tz = None        # a job may ask for another process time zone (params['tz']): one observer process per zone
+        self._procs = {}
 
     def _start(self):
-        self.p = subprocess.Popen([self.binary], stdin=subprocess.PIPE, stdout=subprocess.PIPE, stderr=subprocess.DEVNULL)
+        env = dict(os.environ)
+        if self.tz:
+            env['TZ'] = self.tz
+        self.p = subprocess.Popen([self.binary], stdin=subprocess.PIPE, stdout=subprocess.PIPE, stderr=subprocess.DEVNULL, env=env)
 
     def request(self, req):
+        if getattr(self, '_cur_tz', None) != self.tz:
+            self._procs[getattr(self, '_cur_tz', None)] = self.p
+            self.p = self._procs.get(self.tz)
+            self._cur_tz = self.tz
         if self.p is None or self.p.poll() is not None:
             self._start()
         self.p.stdin.write((json.dumps(req) + '\n').encode())
